@@ -474,6 +474,9 @@ func VH_RoundTrip() {
 		if f2 := vParam("second", -1); f2 >= 0 {
 			sr.Filters = append(sr.Filters, vRTFilter(vRTFields[f2], 1, eqOps[:1]))
 		}
+		if f3 := vParam("third", -1); f3 >= 0 {
+			sr.Filters = append(sr.Filters, vRTFilter(vRTFields[f3], 2, eqOps[:1]))
+		}
 		if vParam("compare", 0) != 0 {
 			// -C comparisons, alone or after the value filter
 			if vParam("compare", 0) == 2 {
